@@ -231,3 +231,34 @@ func VerifH_C16_jsonp() {
 	}
 	verif.Assert(w.hdr.Get("Content-Length") == strconv.Itoa(len(body)), "Content-Length equals the bytes sent")
 }
+
+// VerifH_C16_two_cycles: two poll cycles of one session with different Accept-Encoding
+// values: each response is coded according to ITS OWN request.
+func VerifH_C16_two_cycles() {
+	p, _ := newPolling("4")
+	p.SetHttpCompression(&types.HttpCompression{Threshold: 0})
+	for cycle := 0; cycle < 2; cycle++ {
+		ae := c16Accept[verif.Choose(6)]
+		ctx, w := newCtx("GET", "4")
+		if ae != "" {
+			ctx.Request().Header.Set("Accept-Encoding", ae)
+			ctx.Headers().Set("Accept-Encoding", ae)
+		}
+		p.OnRequest(ctx)
+		p.Send([]*packet.Packet{{Type: packet.MESSAGE, Data: types.NewStringBufferString("hello"), Options: &packet.Options{Compress: true}}})
+		verif.Settle()
+		verif.Assert(w.writeCalls == 1, "one response per cycle")
+		if w.writeCalls != 1 {
+			return
+		}
+		enc := w.hdr.Get("Content-Encoding")
+		if enc != "" {
+			verif.Assert(refAccepts(ae, enc), "the coding is one the request of THIS cycle names")
+			dec, ok := decodeBody(enc, w.bodies[0])
+			verif.Assert(ok && string(dec) == "4hello", "and the body decodes under it to the payload")
+		} else {
+			verif.Assert(string(w.bodies[0]) == "4hello", "uncoded body is the payload")
+			verif.Assert(!refAccepts(ae, "gzip") && !refAccepts(ae, "deflate") && !refAccepts(ae, "br") && !refAccepts(ae, "zstd"), "no coding only when the request names none of the supported ones")
+		}
+	}
+}
